@@ -37,7 +37,11 @@ func c07Sig(e, i int) solana.Signature {
 	return s
 }
 
-func c07Slot(e, i int) uint64 { return c07EpochNums[e]*432000 + uint64(10+5*i) }
+// the entries of an epoch sit on its first slot, an ordinary slot and its LAST slot (a window bound that falls on an
+// epoch border must cut exactly there); set for the tier's maximal count before any index is built
+var c07SlotOffsets = []uint64{0, 10, 431_998, 431_999}
+
+func c07Slot(e, i int) uint64 { return c07EpochNums[e]*432000 + c07SlotOffsets[i] }
 
 // offsets encode (epoch index, entry index) so that the fetcher can synthesise the transaction
 func c07Offset(e, i int) uint64 { return uint64(1000*(e+1) + i) }
@@ -72,7 +76,7 @@ func c07Build(base string, e, count, layout int) (string, error) {
 	if err != nil {
 		return "", err
 	}
-	for i := 0; i < c07MaxCount; i++ {
+	for i := 0; i < len(c07SlotOffsets); i++ {
 		pks := solana.PublicKeySlice{c06B} // noise address in every transaction
 		if i < count {
 			pks = append(pks, c06A)
@@ -104,10 +108,15 @@ func TestVerif_C07_Reader(t *testing.T) {
 	defer os.RemoveAll(c06Base())
 	R.Rule = "reader level: count vector (entries of the address in each of 3 epochs, 0..4 each: all 125) x non-empty subset of loaded epochs x limit in 1..total+1 x before in history+{none,unknown} x until likewise, against slice arithmetic on the concatenated newest-first history; slot variant: every (before, until) pair over the distinct slots +-1, 0, 2^63, 2^63+5 and 2^64-1; handler level: JSON response order under every iteration order of the per-epoch result map; non-trivial = query whose expected result is a proper, non-empty sub-run of the history"
 	// one index per (epoch, count)
+	buildMax := c07MaxCount
+	if !vkit.Thorough() {
+		buildMax = 3
+		c07SlotOffsets = []uint64{0, 10, 431_999}
+	}
 	var dirs [c07Layouts][c07Epochs][c07MaxCount + 1]string
 	for l := 0; l < c07Layouts; l++ {
 		for e := 0; e < c07Epochs; e++ {
-			for c := 0; c <= c07MaxCount; c++ {
+			for c := 0; c <= buildMax; c++ {
 				d, err := c07Build(base, e, c, l)
 				if err != nil {
 					R.Internal("cannot build gsfa index e=%d c=%d layout=%d: %v", e, c, l, err)
@@ -187,7 +196,7 @@ func TestVerif_C07_Reader(t *testing.T) {
 				for e := c07Epochs - 1; e >= 0; e-- {
 					for _, tx := range m[c07EpochNums[e]] {
 						found := false
-						for i := 0; i < c07MaxCount; i++ {
+						for i := 0; i < len(c07SlotOffsets); i++ {
 							if uint64(tx.Slot) == c07Slot(e, i) {
 								out = append(out, c07Entry{e, i})
 								found = true
